@@ -166,7 +166,7 @@ def run_c12(tier, seed):
             viol += 1
         cov = dict(seq["coverage"]) if seq.get("coverage") else {}
         cov.update(obligations=len(names), discharged=len(done), theorems=names, trusted_base=common.TRUSTED_BASE, coqchk={k: v for k, v in chk.items() if k != "tail"},
-                   checker_cmd="cd /verif/coq && make -j16 && coqc -Q . GB Properties.v && coqc -Q . GB Properties2.v",
+                   checker_cmd="cd /verif/coq && make -j16 && for f in Properties Properties2 Properties3; do coqc -Q . GB $f.v; done",
                    orders_validated=len(orders), exhaustive=True,
                    exhaustive_scope="order validation: every int in [-70000,70000], 2^n+d for n<=62,|d|<=16, -2^n+-2, MinInt64, MaxInt64; six constructors each (construction skipped above 2^20, checkOrder consulted)",
                    validation_mismatches=len(mism), validation_monitor_failures=len(monv),
